@@ -125,6 +125,11 @@ def main(argv=None):
     # ---- gather work
     t1_funcs = [q for q, c in contracts.items() if set(c.get("props", [])) & set(props) and c.get("mode", "verify") == "verify"
                 and (tier != "quick" or not c.get("thorough_tier_only"))]   # a contract may say it is too slow for the quick tier
+    if registry.PROPERTIES[prop].get("t1_all"):
+        # C11 (totality): the exception-freedom obligations (safe.*, noraise.*) of EVERY function under contract are its T1
+        # content, so its check runs every contract
+        t1_funcs = [q for q, c in contracts.items() if c.get("mode", "verify") == "verify"
+                    and (tier != "quick" or not c.get("thorough_tier_only"))]
     assumed = {q: c for q, c in contracts.items() if set(c.get("props", [])) & set(props) and c.get("mode") == "assume"}
     lemma_names = [n for n, l in lemmas.items() if set(l.get("props", [])) & set(props)]
     drivers = []
@@ -155,6 +160,7 @@ def main(argv=None):
     # ---- collect obligations
     obligations = []
     demoted = []
+    demoted_obls = []
     faults = []
     for r in fresults:
         if r["status"] == "ok":
@@ -164,6 +170,11 @@ def main(argv=None):
                 obligations.append(o)
         elif r["status"] == "left-subset":
             demoted.append(dict(func=r["qual"], reason=r["reason"]))
+            for o in r["obligations"]:          # refuted / unknown ones generated before the function left the subset
+                o = dict(o)
+                o["func"] = r["qual"]
+                o["detail"] = (o.get("detail") or "") + " [path explored before the function left the subset]"
+                demoted_obls.append(o)
         else:
             faults.append(dict(func=r["qual"], status=r["status"], reason=r["reason"]))
     for o in lresults:
@@ -188,6 +199,10 @@ def main(argv=None):
     demoted_funcs = {d["func"] for d in demoted}
     missing_hard = [m for m in missing if not any(m.startswith(f + "/") for f in demoted_funcs)]
 
+    # obligations of demoted functions: a refutation always counts; an `unknown` only under the rule below
+    for o in demoted_obls:
+        if o["verdict"] == "refuted" or (o["verdict"] == "unknown" and o["func"] in changed_funcs and strip_sites(o["name"]) in expected):
+            obligations.append(o)
     refuted = [o for o in obligations if o["verdict"] == "refuted"]
     unknown = [o for o in obligations if o["verdict"] in ("unknown", "failed", "crash")]
     # An obligation that was discharged on the unchanged tree (it is in the committed expected set) and is NOT
